@@ -112,6 +112,31 @@ def gen(rng):
     return {"base": [lat, lon], "topo": topo, "alg": rng.choice((1, 2)), "stations": st, "ops": ops, "mib": mib}
 
 
+def gen_ls_overtake(rng):
+    """Directed class: the destination of a burst of unicast requests is not yet known to the sender (it has not beaconed), so
+    the first request starts a location-service lookup; while the lookup is pending a beacon / single-hop broadcast of the
+    destination overtakes the LS exchange (the sender now has a position vector and a neighbour entry for it), and further
+    requests follow.  All of them must arrive exactly once, in request order."""
+    c = gen(rng)
+    while c["topo"] != "mesh":
+        c = gen(rng)
+    n = len(c["stations"])
+    snd = rng.randrange(n)
+    d = (snd + 1 + rng.randrange(n - 1)) % n
+    ops = [{"op": "beacon", "st": i} for i in range(n) if i != d and rng.random() < 0.8] + [{"op": "drain"}]
+    base = {"op": "req", "snd": snd, "kind": "guc", "btp": rng.choice("AB"), "dport": 2001, "p2": 1, "plen": 5, "tcid": rng.randrange(64), "co": 0, "scf": 0,
+            "hop": rng.choice((1, 2, 10)), "life_ms": rng.choice((None, 60000)), "dst": d}
+    ops.append(dict(base))
+    for k in range(rng.randrange(1, 4)):
+        if rng.random() < 0.8:
+            ops.append({"op": rng.choice(("beacon", "shb_from")), "st": d})
+            ops.append({"op": "deliver_from", "from": d, "to": snd})
+        ops.append({**base, "plen": rng.choice((0, 3, 50))})
+    ops.append({"op": "drain"})
+    c["ops"] = ops
+    return c
+
+
 def run_case(c, res):
     from vf.gnharness import World, btp_request, area as mk_area, tc, mid_of
     from vf.stations import pv_dict
@@ -335,7 +360,7 @@ def run_case(c, res):
 def run_shard(spec, res):
     rng = random.Random(spec["seed"])
     for k in range(spec["cases"]):
-        c = gen(rng)
+        c = gen_ls_overtake(rng) if k % 5 == 4 else gen(rng)
         run_case(c, res)
         res.case(repr(c))
         if k == 0:
